@@ -67,6 +67,7 @@ type matchRec struct {
 	seq     int
 	doneSeq int
 	t       time.Duration
+	doneT   time.Duration // when the matcher returned its verdict (later than t if it blocked)
 	info    pktInfo
 	ptr     interface{}
 	isNil   bool
@@ -336,7 +337,7 @@ func (st *ccState) caller(ci int, specs []callSpec) {
 		sleep(sp.startDelay, siteCallerSleep)
 		for a := 0; ; a++ {
 			c := st.doCall(ci, sp, a, i)
-			if a >= sp.inUseRetry || !st.cfg.p.IsInUse(c.err) {
+			if a >= sp.inUseRetry || !st.refused(c) {
 				break
 			}
 			sleep(time.Millisecond, siteCallerSleep)
@@ -436,7 +437,7 @@ func (st *ccState) matcher(c *ccCall, m interface{}) bool {
 	s := st.s
 	p := st.cfg.p
 	info, isNil := p.MsgInfo(m)
-	mr := &matchRec{t: s.Now(), info: info, ptr: m, isNil: isNil}
+	mr := &matchRec{t: s.Now(), doneT: s.Now(), info: info, ptr: m, isNil: isNil}
 	c.matches = append(c.matches, mr)
 	if isNil {
 		mr.seq = s.Ev("match", c.id, 0, "nil message", nil)
@@ -466,6 +467,7 @@ func (st *ccState) matcher(c *ccCall, m interface{}) bool {
 		}
 	}
 	mr.verdict = v
+	mr.doneT = s.Now()
 	mr.doneSeq = s.Ev("match.verdict", c.id, int64(info.Serial), fmt.Sprint(v), nil)
 	return v
 }
